@@ -312,6 +312,21 @@ def concat_pieces(e: ast.AST) -> Optional[List[ast.AST]]:
         for x in e.args[0].elts:
             out += concat_pieces(x) or [x]
         return out
+    if isinstance(e, ast.BinOp) and isinstance(e.op, ast.Mod) and isinstance(e.left, ast.Constant) and isinstance(e.left.value, str):
+        import re as _re
+        fmt = e.left.value
+        args = list(e.right.elts) if isinstance(e.right, ast.Tuple) else [e.right]
+        parts = _re.split(r"(%s)", fmt)
+        if "%" in "".join(p_ for p_ in parts if p_ != "%s") or parts.count("%s") != len(args):
+            return None
+        out = []
+        it = iter(args)
+        for p_ in parts:
+            if p_ == "%s":
+                out.append(next(it))
+            elif p_:
+                out.append(ast.Constant(value=p_))
+        return out
     if isinstance(e, ast.JoinedStr):
         out = []
         for v in e.values:
